@@ -3,7 +3,7 @@ from __future__ import annotations
 
 import itertools
 
-from .. import core, aclgen
+from .. import core, aclgen, acltext
 from ..core import cstr, clist, cbool, cforest, copt
 
 ID = "C06"
@@ -24,14 +24,37 @@ META = {
             "Merged-ACL monotonicity is refuted with a witness (C06_monotone_refuted) and proved under an explicit guard, "
             "for rule sets and for ACL texts incl. compile_acl_text's merging (C06_monotone_guarded, C06_monotone_texts, "
             "C06_compile_dominated). apply_acl_diff (filter_diff) keeps exactly the matched entries and turns removals under "
-            "all-cant_delete rules into 'affected' (C06_filter_diff_exact). Correspondence: Coq evaluates model==implementation and the declarative predicates "
+            "all-cant_delete rules into 'affected' (C06_filter_diff_exact). ACL TEXT front end (Model/AclText.v: _split_rows "
+            "with %param continuation rows, the offside parser with '#' comments, _parse_raw_rule with the %params scanner "
+            "and the valkit validators, '!' and %context rows, _merge_toplevel, _compile_acl): for every structured ACL of "
+            "any depth whose lines parse to their items' fields, the text aclgen prints compiles to compile_acl of the "
+            "structured ACL (C06_text_roundtrip; C06_text_parse_printed, C06_text_tree_levels for the parser alone), two "
+            "printed texts joined by a newline compile to compile_acl (A ++ B) incl. _merge_toplevel's uniters "
+            "(C06_text_concat); for arbitrary texts a + newline + b inserts a's then b's paths into one tree under computable "
+            "guards (C06_text_concat_paths); blank rows and indented '#' comments are irrelevant "
+            "(C06_comment_blank_irrelevant, C06_comment_blank_line_irrelevant) while a '#' comment in column 0 is refuted to "
+            "be (C06_col0_comment_irrelevant_refuted: it detaches the children below it). Correspondence: Coq evaluates model==implementation and the declarative predicates "
             "on the real apply_acl(tree, compile_acl_text(text, vendor), fatal_acl, exclusive) outputs (also "
             "filter_config and apply_acl_diff) over generated ACL texts (pairs A, B, A+B), targeted families (overlapping "
-            "generators in exclusive mode, co-matching parents with conflicting child parameters) and a small exhaustive scope.",
+            "generators in exclusive mode, co-matching parents with conflicting child parameters) and a small exhaustive scope; "
+            "and model==implementation for compile_acl_text itself on the compiled STRUCTURE (rule order, local/global side, "
+            "nesting, merged cant_delete / prio / generator_names, exception kind, ParserError line and row) over ACL texts: "
+            "clean prints, layout noise (indent units, tabs, blank lines, comments), spelling noise (irregular blanks, "
+            "reordered / respelled / unknown / repeated %params, continuation rows, %context rows, duplicated lines), "
+            "malformed texts (bad dedent -> ParserError, bad values -> ValidatorError, '!rule' -> NotImplementedError, bad "
+            "%context -> ValueError), concatenations, a small exhaustive scope; on printed texts additionally "
+            "implementation == compile_acl of the structured ACL, and the guard acl_okb of the round-trip theorem is "
+            "evaluated on every generated structured ACL.",
     "technique": "Coq induction over trees/paths (first-event reference), domination order on rule sets for merges; "
                  "vm_compute differential check on real outputs",
-    "note": "Theorems quantify over compiled rule sets and structured ACLs; the ACL text parser, the pattern compiler "
-            "and compile_acl_text are tied to the code by the correspondence run only. Monotonicity fails on the unchanged code: "
+    "note": "The filtering theorems quantify over compiled rule sets and structured ACLs; C06_text_roundtrip / "
+            "C06_text_concat carry them over to compile_acl_text of printed ACL texts. Tied to the code by the correspondence "
+            "run only: the model of the text front end itself (as every model), the pattern compiler, and that aclgen's "
+            "line printer raw_rule produces lines inside the guard acl_ok (checked in Coq per generated ACL, not proved for "
+            "the printer as a function). Partial: for arbitrary (not printed) texts the concatenation is proved at the level "
+            "of inserted paths only (C06_text_concat_general_statement is left unproved). Not modelled: the effect of "
+            "%context, re.error for rows outside the rule language, int() spellings of %prio other than decimal digits. "
+            "Monotonicity fails on the unchanged code: "
             "six known findings C06/monotone/<cause>, each reproduced in the model with the same reason code.",
 }
 
@@ -215,6 +238,99 @@ def run_diff_stream(ctx, cases: list[dict]):
             "diff_disagreements": len(res["agree"])}
 
 
+# ------------------------------------------------------------------ compile_acl_text on ACL TEXTS (Model/AclText.v)
+
+# agree: model == implementation; holds: implementation == compile_acl of the structured ACL the text was printed
+# from; domain: that structured ACL meets the guard of C06_text_roundtrip (so the theorem speaks about this text)
+TEXT_PREDS = {"agree": "agree_text", "holds": "holds_text",
+              "domain": "fun c => match ct_src c with Some a => acl_okb a | None => true end"}
+
+
+def gen_text_cases(ctx) -> list[dict]:
+    """{"vendor", "ctext", "A": structured ACL or None, "kind"}"""
+    rng = ctx.rng("text")
+    out = []
+    n = 2600 if ctx.thorough else 240
+    for k in range(n):
+        v = rng.choice(aclgen.ACL_VENDORS)
+        rev = aclgen.VENDORS[v]
+        a = aclgen.gen_acl(rng, rev, ign_rate=(0.05 if k % 5 == 0 else 0.0), aligned=rng.random() < 0.5,
+                           max_depth=rng.choice([1, 2, 3, 3, 4]))
+        x = k % 10
+        if x < 2:
+            out.append({"vendor": v, "ctext": aclgen.acl_text(a), "A": a, "kind": "clean"})
+        elif x < 4:
+            out.append({"vendor": v, "ctext": acltext.layout_text(rng, a), "A": a, "kind": "layout"})
+        elif x < 7:
+            out.append({"vendor": v, "ctext": acltext.spelled_text(rng, a), "A": None, "kind": "spelled"})
+        elif x < 9:
+            t, kind = acltext.malformed_text(rng, a)
+            out.append({"vendor": v, "ctext": t, "A": None, "kind": "malformed-" + kind})
+        else:                                               # two texts one after the other (A + "\n" + B)
+            b = aclgen.gen_acl_variant(rng, a, rev) if rng.random() < 0.6 else aclgen.gen_acl(rng, rev, max_depth=2)
+            if rng.random() < 0.5:
+                out.append({"vendor": v, "ctext": aclgen.acl_text(a) + "\n" + aclgen.acl_text(b), "A": a + b,
+                            "kind": "concat-clean"})
+            else:
+                out.append({"vendor": v, "ctext": acltext.spelled_text(rng, a) + "\n" + acltext.layout_text(rng, b),
+                            "A": None, "kind": "concat-spelled"})
+    # a small exhaustive scope of one- and two-line texts over a few row / parameter spellings
+    rows = ["a", "a  b", "!a", "interface x", "%context=a:b", "%context=a", "!"]
+    pars = ["", " %global", "  %cant_delete=0,1", "\t%prio=2", " %prio=x", " %generator_names=g1,g2", "\n  %global"]
+    small = []
+    for r1 in rows:
+        for p1 in pars:
+            small.append({"vendor": "cisco", "ctext": r1 + p1, "A": None, "kind": "small-scope"})
+            for r2 in rows[:3]:
+                for ind in ["", "  "]:
+                    small.append({"vendor": "cisco", "ctext": r1 + p1 + "\n" + ind + r2 + rng.choice(pars), "A": None,
+                                  "kind": "small-scope"})
+    return out + (small if ctx.thorough else rng.sample(small, 160))
+
+
+def run_text_stream(ctx):
+    """compile_acl_text: model == implementation on the compiled STRUCTURE (row order, nesting, merged
+    parameters, local/global side, exception kind and ParserError line) and, for texts printed from a
+    structured ACL, implementation == compile_acl of the structured ACL."""
+    tcases = gen_text_cases(ctx)
+    outs = core.run_impl_sharded("c06_runner.py", [{"vendor": c["vendor"], "ctext": c["ctext"]} for c in tcases])
+    for c, o in zip(tcases, outs):
+        if "exc" in o:
+            ctx.add_violation(core.Violation(signature="C06/implementation-raised",
+                                             what="compile_acl_text raised an unexpected exception: " + o["exc"],
+                                             replay={"text_case": c, "impl": o}))
+            return {"text_cases": len(tcases)}
+    terms = [acltext.coq_case(c["ctext"], c["A"], o) for c, o in zip(tcases, outs)]
+    res = core.run_case_files(ID, "ctcase", acltext.TEXT_IMPORTS, TEXT_PREDS, terms, per_file=40, tag="text")
+    for i in res["domain"][:1]:
+        ctx.add_violation(core.Violation(
+            signature="C06/text-printer-domain",
+            what="a generated structured ACL is outside the guard acl_okb of C06_text_roundtrip (a printed line does "
+                 "not parse, in the model, to the fields of its item)",
+            replay={"text_case": tcases[i], "impl": outs[i], "correspondence": "printer-domain"}, no_input=True))
+    for i in res["holds"][:2]:
+        ctx.add_violation(core.Violation(
+            signature="C06/text-roundtrip",
+            what="compile_acl_text of a printed structured ACL differs from the structured compile (rule order, "
+                 "nesting, merged parameters or local/global side)",
+            replay={"text_case": tcases[i], "impl": outs[i], "clause": "text-roundtrip"}))
+    if not res["holds"]:
+        for i in res["agree"][:1]:
+            ctx.add_violation(core.Violation(
+                signature="C06/model-impl-disagree/compile_acl_text",
+                what="Coq model of compile_acl_text (text front end) and the implementation differ on the compiled structure",
+                replay={"text_case": tcases[i], "impl": outs[i], "correspondence": "compile_acl_text"}, no_input=True))
+    kinds, results = {}, {}
+    for c, o in zip(tcases, outs):
+        kinds[c["kind"]] = kinds.get(c["kind"], 0) + 1
+        r = o.get("err", "rules")
+        results[r] = results.get(r, 0) + 1
+    return {"text_cases": len(tcases), "text_kind_histogram": kinds, "text_result_histogram": results,
+            "text_disagreements": len(res["agree"]), "text_roundtrip_failures": len(res["holds"]),
+            "text_distinct": len({(c["ctext"]) for c in tcases}),
+            "text_max_rules": max((acltext.rules_size(o["rules"]) for o in outs if "rules" in o), default=0)}
+
+
 def unexpected(o: dict) -> str | None:
     for k, r in o.items():
         if "exc" in r:
@@ -282,8 +398,19 @@ def run(ctx):
             replay=rep(cases[i], outs[i])))
     keep = [i for i in range(len(cases)) if i not in set(crashed)]
     kc, ko = [cases[i] for i in keep], [outs[i] for i in keep]
-    bad, each, codes = evaluate(kc, ko, "cases")
-    diff_cov = run_diff_stream(ctx, kc)
+    # the text front end stream is independent of the filtering streams: run it beside them
+    from concurrent.futures import ThreadPoolExecutor
+    t3 = time.time()
+
+    def text_job():
+        cov = run_text_stream(ctx)
+        cov["seconds"] = round(time.time() - t3, 1)
+        return cov
+    with ThreadPoolExecutor(max_workers=1) as ex:
+        text_future = ex.submit(text_job)
+        bad, each, codes = evaluate(kc, ko, "cases")
+        diff_cov = run_diff_stream(ctx, kc)
+        text_cov = text_future.result()
     ctx.coverage["timing_s"] = {"proof_stage": round(t1 - t0, 1), "implementation_runs": round(t2 - t1, 1),
                                 "coq_evaluation": round(time.time() - t2, 1)}
     holds_failed = False
@@ -363,6 +490,7 @@ def run(ctx):
         "monotone_pairs": sum(1 for c in kc if c["B"] is not None),
         "monotone_failures_by_reason": mono_hist,
         "apply_acl_diff": diff_cov,
+        "compile_acl_text": text_cov,
         "exclusive_cases": sum(1 for c in kc if c["exclusive"]),
         "filter_config_cases": sum(1 for c in kc if c["filter_text"]),
         "max_tree_rows": max((tree_size(c["tree"]) for c in kc), default=0),
@@ -374,12 +502,27 @@ def run(ctx):
         "in exclusive mode every rule has as many generator names as cant_delete flags or none (what annet.generators "
         "builds); otherwise merge_dicts' equality shortcut depends on the scratch key attrs['match']",
         "compile_acl_text's lru_cache is cleared before every run (compiled rules carry scratch state)",
-        "not modelled: %context, with_annotations, '<name>' groups, '...' and '~/re/' endings, apply_acl_fileconfig",
+        "not modelled: the effect of %context rows (they are parsed and skipped; the compiled structure compared does "
+        "not contain attrs['context']), with_annotations, '<name>' groups, '...' and '~/re/' endings, apply_acl_fileconfig",
+        "ACL texts: ASCII, blanks are space and tab (the model also treats \\n..\\r as blanks); %prio values of decimal "
+        "digits (int() also accepts a sign, inner underscores, non-ASCII digits: the model answers ValidatorError there); "
+        "the compiled STRUCTURE is compared (rule ids in order, local/global side, nesting, cant_delete, prio, "
+        "generator_names, exception kind, ParserError line and row), never the regexps",
         "filter_config: the text join / re-parse round trip is taken as the identity (C04/C05)",
     ]
 
 
 def replay(ctx, doc):
+    if "text_case" in doc["replay"]:
+        c = doc["replay"]["text_case"]
+        o = core.run_impl("c06_runner.py", [{"vendor": c["vendor"], "ctext": c["ctext"]}])[0]
+        if "exc" in o:
+            print("impl raised:", o["exc"])
+            return 1
+        res = core.run_case_files(ID, "ctcase", acltext.TEXT_IMPORTS, TEXT_PREDS, [acltext.coq_case(c["ctext"], c["A"], o)],
+                                  tag="replay")
+        print("impl:", o, "failing:", [k for k, v in res.items() if v])
+        return 1 if res["holds"] else 0
     if "diff_case" in doc["replay"]:
         c = doc["replay"]["diff_case"]
         o = core.run_impl("c06_runner.py", [{k: c[k] for k in ("vendor", "acl", "diff")}])[0]
